@@ -254,10 +254,18 @@ def run(chk):
             v = src(n.ast.value)
             if v.startswith("self."):
                 save_pairs[v[5:]] = int(e[3:])
-    for s in [n for n in own_nodes(read.node) if isinstance(n, ast.Assign)]:
+    assigns_in_order = sorted([n for n in own_nodes(read.node) if isinstance(n, ast.Assign)], key=lambda n: (n.lineno, n.col_offset))
+    for s in assigns_in_order:
         t = dotted(s.targets[0])
-        if t and t.startswith("self.") and isinstance(s.value, ast.Call) and dotted(s.value.func) == "_raw_from" and s.value.args:
-            a = s.value.args[0]
+        val = s.value
+        if t and t.startswith("self.") and isinstance(val, ast.Name):
+            # the value travels through a local (`value = _raw_from(...)` in the try body, the store in its else clause): the nearest
+            # definition of that local above the store
+            prev = [d for d in assigns_in_order if isinstance(d.targets[0], ast.Name) and d.targets[0].id == val.id and (d.lineno, d.col_offset) < (s.lineno, s.col_offset)]
+            if prev:
+                val = prev[-1].value
+        if t and t.startswith("self.") and isinstance(val, ast.Call) and dotted(val.func) == "_raw_from" and val.args:
+            a = val.args[0]
             if isinstance(a, ast.Subscript) and dotted(a.value) == "self.com_record":
                 k = folder.try_fold(a.slice, fsc, None)
                 read_pairs[t[5:]] = k
